@@ -246,6 +246,8 @@ def _subhint_soundness(ctx, repo):
                    f'returns `{txt[:70]}` under {guards}')
     ctx.floor('C19.R8', n, 2, 'possibly-true returns of _is_equal overrides')
 
+    _base_branch(ctx)
+
 
 def typehint_cache(ctx, RULE):
     """TypeHint(h) is looked up in a locked cache keyed by the hint itself (shared with C03.R5: a wrapper obtained for one
@@ -322,3 +324,85 @@ def _literals(text: str) -> set:
                 out.add(f'not ({t})')
     walk(e, False)
     return out
+
+
+def _base_branch(ctx):
+    """R9 by interpretation: TypeHint._is_subhint_branch over abstract wrappers."""
+    import itertools
+    from sa.fold import AObj, FuncVal, _Abort, _Raise, _call_function
+    from rules import _gen
+    repo = ctx.repo
+    F = _gen.engines(ctx)[0].f
+    SUP = 'beartype.door._cls.doorsuper'
+    sm = repo.mod(SUP)
+    cls = F.const(SUP, 'TypeHint')
+    fn = cls.find('_is_subhint_branch')
+    ctx.require(isinstance(fn, FuncVal), 'anchor vanished: TypeHint._is_subhint_branch')
+    ctx.rule('C19.R9', 'the base subhint test between two subscripted hints, decided by interpreting TypeHint._is_subhint_branch '
+             'over abstract wrappers (origins compatible or not × the other\'s arguments ignorable or not × same wrapper class '
+             'or not × children: equal arity with every / not every child a subhint, differing arity): it holds only if the '
+             'origins are compatible and either the other\'s arguments are ignorable or both have the same class, the same '
+             'number of children and every child is a subhint of its counterpart — with differing arity it never holds '
+             '(ItemsView[str, int] is not a Collection[str])')
+
+    class _Kid(AObj):
+        def __init__(self, ok):
+            self.ok = ok
+
+        def is_subhint(self, other):
+            return self.ok
+
+    class _W(AObj):
+        def __init__(self, kind, origin, kids, ignorable=False):
+            self.kind, self._origin, self._args_wrapped_tuple, self._is_args_ignorable = kind, origin, tuple(kids), ignorable
+            self._hint = f'<{kind}>'
+
+        def __repr__(self):
+            return f'<wrapper {self.kind} of {len(self._args_wrapped_tuple)}>'
+    saved_b, saved_i = F.builtin_hook, F.isinstance_hook
+    state = {}
+
+    def bh(name, args, kw):
+        if name == 'issubclass' and len(args) == 2 and all(isinstance(a, str) and a.startswith('ORIGIN') for a in args):
+            return state['origin_ok']
+        if name == 'type' and len(args) == 1 and isinstance(args[0], _W):
+            return ('CLASS', args[0].kind)
+        if name == 'len' and args and isinstance(args[0], tuple):
+            return len(args[0])
+        return saved_b(name, args, kw) if saved_b else NotImplemented
+
+    def ih(o, c):
+        if isinstance(o, _W) and isinstance(c, tuple) and c[:1] == ('CLASS',):
+            return o.kind == c[1]
+        return saved_i(o, c) if saved_i else None
+    F.builtin_hook, F.isinstance_hook = bh, ih
+    n = 0
+    try:
+        for origin_ok, ignorable, same_cls in itertools.product((True, False), repeat=3):
+            for kname, mine, theirs in (('equal-arity-all-subhints', [True, True], 2), ('equal-arity-one-not', [True, False], 2),
+                                        ('fewer-children-than-the-other', [True], 2), ('more-children-than-the-other', [True, True], 1)):
+                state['origin_ok'] = origin_ok
+                me = _W('A', 'ORIGIN-A', [_Kid(x) for x in mine])
+                other = _W('A' if same_cls else 'B', 'ORIGIN-B', [_Kid(True)] * theirs, ignorable)
+                raised = out = None
+                try:
+                    out = _call_function(F, fn, [me, other], {}, 1)
+                except _Raise as ex:
+                    raised = ex
+                except _Abort as ex:
+                    ctx.require(False, f'cannot interpret TypeHint._is_subhint_branch: {ex}')
+                n += 1
+                may = origin_ok and (ignorable or (same_cls and len(mine) == theirs and all(mine)))
+                holds = raised is None and bool(out)
+                tag = (f'origins-{"compatible" if origin_ok else "incompatible"}:args-{"ignorable" if ignorable else "checked"}:'
+                       f'{"same" if same_cls else "other"}-class:{kname}')
+                ctx.ob('C19.R9', f'base-branch:{tag}', sm.where(fn.node),
+                       'the test holds exactly under origin compatibility and (ignorable arguments or same class, same arity, all '
+                       'children subhints)', holds == may or (not may and not holds),
+                       f'evaluates to {out!r}' if raised is None else f'raises {raised}')
+                if may:
+                    ctx.ob('C19.R9', f'base-branch:complete:{tag}', sm.where(fn.node), 'the test holds where it should', holds,
+                           f'evaluates to {out!r}' if raised is None else f'raises {raised}')
+    finally:
+        F.builtin_hook, F.isinstance_hook = saved_b, saved_i
+    ctx.floor('C19.R9', n, 32, 'abstract wrapper pairs')
